@@ -71,8 +71,18 @@ def request_cases(step: int, start: int, timeout: int, maxlen: int):
             yield combo
 
 
-def ref_requests(deps: Tuple[int, ...], step: int, start: int, timeout: int, nsteps: int):
-    """per step index: (ids added, ids cancelled); request i has id str(i). file order = sorted deps."""
+# request ids are free text: in arrival order, against it, and numbers whose text order differs from their numeric order
+ID_SCHEMES = {
+    "arrival_order": lambda i, n: str(i),
+    "reverse_order": lambda i, n: str(n - 1 - i),
+    "digit_boundary": lambda i, n: str(8 + i),  # "8", "9", "10", "11": text order 10 < 11 < 8 < 9
+}
+
+
+def ref_requests(deps: Tuple[int, ...], step: int, start: int, timeout: int, nsteps: int, scheme: str = "arrival_order"):
+    """per step index: (ids added, ids cancelled); request i has id ID_SCHEMES[scheme](i, n). file order = sorted deps."""
+    label = ID_SCHEMES[scheme]
+    n = len(deps)
     adds = [[] for _ in range(nsteps)]
     cancels = [[] for _ in range(nsteps)]
     for i, dep in enumerate(deps):
@@ -84,22 +94,22 @@ def ref_requests(deps: Tuple[int, ...], step: int, start: int, timeout: int, nst
                     if dep + timeout <= t:
                         break  # expired on arrival: never enters
                     admitted = k
-                    adds[k].append(str(i))
+                    adds[k].append(label(i, n))
             else:
                 if t >= dep + timeout:
-                    cancels[k].append(str(i))
+                    cancels[k].append(label(i, n))
                     break
     return adds, cancels
 
 
-def write_requests(path: str, deps: Tuple[int, ...]):
+def write_requests(path: str, deps: Tuple[int, ...], scheme: str = "arrival_order"):
     S = sites()
     olat, olon = h3.h3_to_geo(S["A"])
     dlat, dlon = h3.h3_to_geo(S["M1"])
     with open(path, "w") as f:
         f.write("request_id,o_lat,o_lon,d_lat,d_lon,departure_time,passengers\n")
         for i, d in enumerate(deps):
-            f.write(f"{i},{olat!r},{olon!r},{dlat!r},{dlon!r},{d},1\n")
+            f.write(f"{ID_SCHEMES[scheme](i, len(deps))},{olat!r},{olon!r},{dlat!r},{dlon!r},{d},1\n")
 
 
 def run_updates(cfg, req_file, price_file, lazy: bool, stations, nsteps: int):
@@ -144,32 +154,33 @@ def _req_shard(shard) -> Dict[str, Any]:
         cfg = make_config(step=step, cancel=timeout, start=start, end=start + 100 * step)
         req_file = os.path.join(d, "req.csv")
         for deps in request_cases(step, start, timeout, maxlen):
-            out["cases"] += 1
-            write_requests(req_file, deps)
-            want_adds, want_cancels = ref_requests(deps, step, start, timeout, NSTEPS)
-            if any(want_adds):
-                out["nontrivial"] += 1
-            for lazy in (False, True):
-                out["runs"] += 1
-                try:
-                    got = run_updates(cfg, req_file, None, lazy, [], NSTEPS)
-                except Exception as e:
-                    out["findings"].setdefault(("request_exception", type(e).__name__), (f"{type(e).__name__}: {e}", {"deps": list(deps), "lazy": lazy}))
-                    continue
-                for k, (t, adds, cancels, _, t_after, waiting) in enumerate(got):
-                    if sorted(adds) != sorted(want_adds[k]):
-                        kind = "late_or_missing" if len(adds) < len(want_adds[k]) else "early_or_extra"
-                        out["findings"].setdefault(("admission", kind), (f"step beginning {t}: admitted {adds}, expected {want_adds[k]} (departures {deps}, timeout {timeout}, step {step})", {"deps": list(deps), "lazy": lazy}))
-                        break
-                    if sorted(cancels) != sorted(want_cancels[k]):
-                        kind = "late_or_missing" if len(cancels) < len(want_cancels[k]) else "early_or_extra"
-                        out["findings"].setdefault(("cancellation", kind), (f"step beginning {t}: cancelled {cancels}, expected {want_cancels[k]} (departures {deps}, timeout {timeout}, step {step})", {"deps": list(deps), "lazy": lazy}))
-                        break
-                    if t_after != t + step:
-                        out["findings"].setdefault(("clock",), (f"step beginning {t} ended at {t_after}", {"deps": list(deps), "lazy": lazy}))
-                        break
-            if len(out["samples"]) < 1 and any(want_adds) and any(want_cancels):
-                out["samples"].append({"step": step, "start": start, "timeout": timeout, "departures": list(deps), "adds_per_step": want_adds, "cancels_per_step": want_cancels})
+            for scheme in (("arrival_order",) if len(deps) < 2 else tuple(ID_SCHEMES)):
+                out["cases"] += 1
+                write_requests(req_file, deps, scheme)
+                want_adds, want_cancels = ref_requests(deps, step, start, timeout, NSTEPS, scheme)
+                if any(want_adds):
+                    out["nontrivial"] += 1
+                for lazy in (False, True):
+                    out["runs"] += 1
+                    try:
+                        got = run_updates(cfg, req_file, None, lazy, [], NSTEPS)
+                    except Exception as e:
+                        out["findings"].setdefault(("request_exception", type(e).__name__), (f"{type(e).__name__}: {e}", {"deps": list(deps), "lazy": lazy, "ids": scheme}))
+                        continue
+                    for k, (t, adds, cancels, _, t_after, waiting) in enumerate(got):
+                        if sorted(adds) != sorted(want_adds[k]):
+                            kind = "late_or_missing" if len(adds) < len(want_adds[k]) else "early_or_extra"
+                            out["findings"].setdefault(("admission", kind), (f"step beginning {t}: admitted {adds}, expected {want_adds[k]} (departures {deps}, timeout {timeout}, step {step})", {"deps": list(deps), "lazy": lazy, "ids": scheme}))
+                            break
+                        if sorted(cancels) != sorted(want_cancels[k]):
+                            kind = "late_or_missing" if len(cancels) < len(want_cancels[k]) else "early_or_extra"
+                            out["findings"].setdefault(("cancellation", kind), (f"step beginning {t}: cancelled {cancels}, expected {want_cancels[k]} (departures {deps}, timeout {timeout}, step {step})", {"deps": list(deps), "lazy": lazy, "ids": scheme}))
+                            break
+                        if t_after != t + step:
+                            out["findings"].setdefault(("clock",), (f"step beginning {t} ended at {t_after}", {"deps": list(deps), "lazy": lazy, "ids": scheme}))
+                            break
+                if len(out["samples"]) < 1 and any(want_adds) and any(want_cancels):
+                    out["samples"].append({"step": step, "start": start, "timeout": timeout, "departures": list(deps), "adds_per_step": want_adds, "cancels_per_step": want_cancels})
     finally:
         shutil.rmtree(d, ignore_errors=True)
     out["findings"] = [(list(k), m, dict(rp, step=step, start=start, timeout=timeout, kind="requests")) for k, (m, rp) in out["findings"].items()]
@@ -398,8 +409,8 @@ def replay(body) -> int:
         if rp["kind"] == "requests":
             cfg = make_config(step=rp["step"], cancel=rp["timeout"], start=rp["start"], end=rp["start"] + 100 * rp["step"])
             f = os.path.join(d, "req.csv")
-            write_requests(f, tuple(rp["deps"]))
-            want_a, want_c = ref_requests(tuple(rp["deps"]), rp["step"], rp["start"], rp["timeout"], NSTEPS)
+            write_requests(f, tuple(rp["deps"]), rp.get("ids", "arrival_order"))
+            want_a, want_c = ref_requests(tuple(rp["deps"]), rp["step"], rp["start"], rp["timeout"], NSTEPS, rp.get("ids", "arrival_order"))
             got = run_updates(cfg, f, None, rp["lazy"], [], NSTEPS)
             for k, (t, adds, cancels, _, _, _) in enumerate(got):
                 print(f"step {t}: adds {adds} (expected {want_a[k]}) cancels {cancels} (expected {want_c[k]})")
